@@ -288,7 +288,26 @@ def run(repo: Repo, rep: Report, tier: str) -> None:
             if isinstance(x, ast.If) and _typed(x.test) and any(isinstance(y, (ast.Continue,)) or is_structure_return(y) for y in ast.walk(x)):
                 narrowed = True
         sub = sub0 + " sequential loop over the other (primitive / hooked / generic) variants"
-        if narrowed:
+        # JSON has one number type: an integral number (`20`) conforms to a `number` variant (float) when the union has no `integer` variant - the narrowing
+        # must say so somewhere (`(int, float) if type(data) is int else ...`, `isinstance(data, int) and float in ...`), else `Union[str, float]` turns 10 into "10"
+        int_as_float = False
+        for x in ast.walk(su.node):
+            tests = []
+            if isinstance(x, ast.IfExp):
+                tests = [(x.test, x)]
+            elif isinstance(x, ast.If):
+                tests = [(x.test, x)]
+            for t_, whole in tests:
+                about_int = any(isinstance(c, ast.Compare) and any(isinstance(y, ast.Name) and y.id == "int" for y in ast.walk(c)) and _typed(c) for c in ast.walk(t_)) or any(
+                    isinstance(c, ast.Call) and isinstance(c.func, ast.Name) and c.func.id == "isinstance" and c.args and isinstance(c.args[0], ast.Name) and c.args[0].id == data_p
+                    and any(isinstance(y, ast.Name) and y.id == "int" for y in ast.walk(c.args[1])) for c in ast.walk(t_))
+                if about_int and any(isinstance(y, ast.Name) and y.id == "float" for y in ast.walk(whole)):
+                    int_as_float = True
+        if narrowed and not int_as_float:
+            rep.violation("R14.15", sub, f"{su.fq}|integral-number-not-a-float",
+                          "the candidates are narrowed by the exact Python type of the payload only: an integral JSON number (`10`) is an `int`, so for a union with a `number` variant but no "
+                          "`integer` variant nothing matches exactly and the first coercible variant wins - `oneOf: [string, number]` decodes 10 as \"10\"", su.loc(loop))
+        elif narrowed:
             rep.ok("R14.15", sub, "the candidates are narrowed by the payload's own JSON type before the coercing first-success loop", su.loc(loop))
         else:
             rep.violation("R14.15", sub, f"{su.fq}|primitive-variants-tried-by-coercion",
